@@ -38,8 +38,8 @@ pub assume_specification<'a> [BorrowedFd::<'a>::borrow_raw] (fd: RawFd) -> (r: B
 //@ open src/io.rs / impl IoLoopInner for LoopInner<'_, Data>
 //@ region ioloopinner_impl_ghost props=C16
     // the witnesses carry no information about a concrete loop (they are abstract for every caller)
-    closed spec fn w_killed(&self, dispatcher: &RefCell<IoDispatcher>) -> bool { true }
-    closed spec fn w_rearmed(&self, dispatcher: &RefCell<IoDispatcher>) -> bool { true }
+    #[verifier::opaque] closed spec fn w_killed(&self, dispatcher: &RefCell<IoDispatcher>) -> bool { true }
+    #[verifier::opaque] closed spec fn w_rearmed(&self, dispatcher: &RefCell<IoDispatcher>) -> bool { true }
 //@ endregion
 //@ item src/io.rs / impl IoLoopInner for LoopInner<'_, Data> / fn register props=C16 sigonly ret=r
 //@ enditem
